@@ -391,6 +391,15 @@ func (bldr *BundleBuilder) HopCountBlock(args ...interface{}) *BundleBuilder {
 //   where Data is the payload's data and
 //   BlockControlFlags are _optional_ block processing control flags
 func (bldr *BundleBuilder) PayloadBlock(args ...interface{}) *BundleBuilder {
+	if bldr.err != nil {
+		return bldr
+	}
+
+	if len(args) == 0 || args[0] == nil {
+		bldr.err = fmt.Errorf("PayloadBlock requires data, got nothing")
+		return bldr
+	}
+
 	var buf bytes.Buffer
 	if err := binary.Write(&buf, binary.LittleEndian, args[0]); err != nil {
 		bldr.err = err
